@@ -173,6 +173,24 @@ def _gen_case(rng: random.Random, k: int) -> Dict[str, Any]:
                     if not any(f"{vid}_private_{bid}" in got for vid in homed):
                         member_msgs.append(f"C10/layout-home-base| base {bid} is the home base of {homed} but holds memberships {sorted(got)} after loading: "
                                            f"none of their private memberships, so it is open to vehicles it should refuse")
+            # the station that serves a home base carries that private membership too (the home charger
+            # is not open to everybody)
+            for sid in sorted(sim.stations.keys()):
+                cands = sorted(f"{r['vehicle_id']}_private_{b['base_id']}" for b in base_rows if b["station_id"] == sid
+                               for r in veh_rows if r["home_base_id"] == b["base_id"])
+                if cands:
+                    got = set(sim.stations[sid].membership.memberships)
+                    if not any(c in got for c in cands):
+                        member_msgs.append(f"C10/layout-home-station| station {sid} serves the home base(s) of the drivers behind {cands} but holds memberships {sorted(got)} "
+                                           f"after loading: none of their private memberships, so the home charger is open to vehicles it should refuse")
+            # every plug type of a station has a meter of its energy type (otherwise what is dispensed there is
+            # never counted: C05)
+            for sid in sorted(sim.stations.keys()):
+                st = sim.stations[sid]
+                for cid, cs in sorted(st.state.items()):
+                    if cs.charger.energy_type not in st.energy_dispensed:
+                        member_msgs.append(f"C05/layout-meter| station {sid} has plugs {cid} ({cs.charger.energy_type.name.lower()}) but no meter for that energy type "
+                                           f"after loading: energy dispensed there is not counted")
         except Exception as e:
             raised = f"{type(e).__name__}: {e}"[:200]
         link = lambda c: n.get("link", f"{c}-{c}")
